@@ -325,7 +325,19 @@ func init() {
 			"(genesis+grants+gas = pools+accrued+queued+paid), non-negativity, per-validator share within 1+pool*1e-18 of pool*p/P, dust in [0,n*(1+pool*1e-18)], intake = min(remain+grants, initial>>floor(h/interval)), and claim payouts against the queued amounts. " +
 			"Non-trivial = a block that distributed a non-empty pool; distinct = (set size, number of distinct powers, halving epoch).",
 		Assume: []string{"amounts <= 2^96; the harness plays CometBFT and supplies LastCommit from the validator set of the previous height"},
-		Cases:  func(tier string) int { return map[string]int{"quick": 48, "thorough": 180}[tier] },
-		Run:    func(c *vc.Ctx, i int) { c12History(c, i) },
+		Cases:  func(tier string) int { return map[string]int{"quick": 48 + 8, "thorough": 180 + 40}[tier] },
+		Run: func(c *vc.Ctx, i int) {
+			if base := map[string]int{"quick": 48, "thorough": 180}[c.Tier]; i >= base {
+				combinedHistory(c, i-base, "c12x", c.Pick(60, 150), nil, func(h *lockHist) (func(), func()) {
+					mon := newC12Mon(h)
+					h.crashFn = func(cr *world.ErrCrash) {
+						c.Violation("block processing failed during a reward history", cr.Error(), h.replay())
+					}
+					return mon.afterBlock, nil
+				})
+				return
+			}
+			c12History(c, i)
+		},
 	})
 }
